@@ -55,28 +55,18 @@ def run_seed(prop, group, i, base_seed, want_log=False, plan=None, trace=None):
 def worker_main(spec):
     bootstrap()
     import faulthandler
+    import traceback
     faulthandler.enable()
     prop, group, base_seed = spec["prop"], spec["group"], spec["base_seed"]
     deadline = time.time() + spec["budget_s"]
-    agg = dict(runs=0, viol=collections.Counter(), other=collections.Counter(), probes=collections.Counter(), fired=collections.Counter(),
-               probe_runs=collections.Counter(), fired_runs=collections.Counter(), digests=set(), nontrivial=set(), steps=0, simtime=0.0,
-               ends=collections.Counter(), samples=[], harness_errors=[], first_i=None, last_i=None, stats=collections.Counter())
+    C = collections.Counter
+    agg = dict(runs=0, viol=C(), other=C(), probes=C(), fired=C(), probe_runs=C(), fired_runs=C(), digests=set(), nontrivial=set(), steps=0,
+               simtime=0.0, ends=C(), samples=[], harness_errors=[], stats=C())
     out = sys.stdout
     h = load_harness(group["harness"])
-    for i in spec["indices"]:
-        if time.time() > deadline:
-            break
-        try:
-            res = run_seed(prop, group, i, base_seed)
-        except BaseException as e:  # harness failure: never a pass, never a violation
-            import traceback
-            agg["harness_errors"].append(dict(i=i, err=repr(e)[:300], tb=traceback.format_exc()[-1500:]))
-            if len(agg["harness_errors"]) > 3:
-                break
-            continue
+
+    def account(res, i):
         agg["runs"] += 1
-        agg["first_i"] = i if agg["first_i"] is None else agg["first_i"]
-        agg["last_i"] = i
         agg["steps"] += res.get("steps", 0)
         agg["simtime"] += res.get("simtime", 0.0)
         agg["ends"][res.get("end", "?")] += 1
@@ -92,20 +82,47 @@ def worker_main(spec):
             if isinstance(v, (int, float)) and not isinstance(v, bool):
                 agg["stats"][k] += v
         agg["digests"].add(res["digest"])
-        if res.get("nontrivial", {}).get(prop):
+        nt = bool(res.get("nontrivial", {}).get(prop))
+        if nt:
             agg["nontrivial"].add(res["digest"])
-        if len(agg["samples"]) < 2 and res.get("nontrivial", {}).get(prop):
+        if len(agg["samples"]) < 2 and nt:
             agg["samples"].append(dict(i=i, seed=res["seed"], plan=h.sample(res["plan"]), end=res.get("end"), digest=res["digest"],
-                                       steps=res.get("steps")))
-        mine = [v for v in res["viol"] if v["prop"] == prop]
+                                       steps=res.get("steps"), fired=res.get("fired")))
         for v in res["viol"]:
             (agg["viol"] if v["prop"] == prop else agg["other"])[f'{v["prop"]}:{v["cls"]}'] += 1
         if any(v["prop"] == "HARNESS" for v in res["viol"]):
             agg["harness_errors"].append(dict(i=i, err=[v for v in res["viol"] if v["prop"] == "HARNESS"][0]["detail"]))
+        mine = [v for v in res["viol"] if v["prop"] == prop]
         if mine:
             out.write(json.dumps(dict(kind="viol", i=i, seed=res["seed"], viol=mine, plan=res["plan"], trace=res["trace"],
                                       digest=res["digest"], hashseed=spec["hashseed"], group=group["name"])) + "\n")
             out.flush()
+
+    for i in spec["indices"]:
+        if time.time() > deadline or len(agg["harness_errors"]) > 3:
+            break
+        try:
+            res = run_seed(prop, group, i, base_seed)
+        except BaseException as e:  # harness failure: never a pass, never a violation
+            agg["harness_errors"].append(dict(i=i, err=repr(e)[:300], tb=traceback.format_exc()[-1500:]))
+            continue
+        account(res, i)
+        en = group.get("enumerate")
+        if en and not res["viol"] and res.get("verdict") == "returned":
+            # single-fault enumeration along the recorded schedule (same seed => identical prefix up to the fault)
+            derived, npts = h.expand(res["plan"], res, random.Random(res["seed"]), en.get(spec["tier"]), en["kinds"])
+            agg["stats"]["base_runs"] += 1
+            agg["stats"]["fault_points_total"] += npts
+            for dplan in derived:
+                if time.time() > deadline:
+                    break
+                try:
+                    r2 = run_seed(prop, group, i, base_seed, plan=dplan)
+                except BaseException as e:  # noqa
+                    agg["harness_errors"].append(dict(i=i, err=repr(e)[:300], tb=traceback.format_exc()[-1500:], derived=dplan.get("faults")))
+                    continue
+                agg["stats"]["fault_points_exercised"] += 1
+                account(r2, i)
     fin = {k: (dict(v) if isinstance(v, collections.Counter) else v) for k, v in agg.items()}
     fin["digests"] = sorted(agg["digests"])
     fin["nontrivial"] = sorted(agg["nontrivial"])
@@ -292,7 +309,7 @@ def check_main(prop, tier, replay=None):
         for w in range(procs):
             hs = w % NHASH
             idx = [i for i in range(n) if i % NHASH == hs and (i // NHASH) % (procs // NHASH) == w // NHASH]
-            spec = dict(prop=prop, group=g, base_seed=base_seed, indices=idx, budget_s=gb, hashseed=hs)
+            spec = dict(prop=prop, group=g, base_seed=base_seed, indices=idx, budget_s=gb, hashseed=hs, tier=tier)
             env = dict(os.environ, PYTHONHASHSEED=str(hs))
             p = subprocess.Popen([PY, os.path.abspath(__file__), "worker", json.dumps(spec)], stdout=subprocess.PIPE, stderr=subprocess.PIPE, env=env, text=True)
             ws.append(p)
